@@ -3,6 +3,7 @@ package c01
 import (
 	"encoding/json"
 	"testing"
+	"time"
 
 	"pgregory.net/rapid"
 	"verif/vkit"
@@ -15,7 +16,17 @@ var coll = vkit.NewCollector("C01", "TestHistory", rule)
 func TestMain(m *testing.M) { vkit.Main(m) }
 
 func runCase(c *Case) *vkit.Violation {
-	res, vs := Run(c)
+	var res Result
+	var vs []*vkit.Violation
+	// a re-entrant call that deadlocks (e.g. a registry lock held while a handler runs) must not hang the check
+	if timedOut, dump := vkit.Watchdog(30*time.Second, func() { res, vs = Run(c) }); timedOut {
+		if again, _ := vkit.Watchdog(30*time.Second, func() { res, vs = Run(c) }); again {
+			if len(dump) > 5000 {
+				dump = dump[:5000]
+			}
+			return vkit.Violf("", "the history did not finish within 30 s, twice: a call issued from inside a handler deadlocks\n%s", dump)
+		}
+	}
 	v := coll.Judge(vs)
 	if v == nil {
 		coll.Record(c, res.Nontrivial, res.Classes...)
